@@ -87,7 +87,12 @@ def gen_mesh(rng, regime):
     p1 = [b if s else a for a, b, s in zip(pmin_f, pmax_f, swap)]
     p2 = [a if s else b for a, b, s in zip(pmin_f, pmax_f, swap)]
     dims = rng.sample(NAMES, ndim) if rng.random() < 0.5 else None
-    return dict(regime=regime, p1=p1, p2=p2, n=n, dims=dims)
+    # boundary conditions have no say in the lattice: periodic directions (a subset of the single-letter axis names) and
+    # the two words are generated so that every index / containment question is also asked on such meshes
+    dd = dims or (["x", "y", "z"][:ndim] if ndim <= 3 else [])
+    r = rng.random()
+    bc = "".join(d for d in dd if len(d) == 1 and rng.random() < 0.6) if r < 0.3 else (rng.choice(["neumann", "dirichlet"]) if r < 0.4 else "")
+    return dict(regime=regime, p1=p1, p2=p2, n=n, dims=dims, bc=bc)
 
 
 def cases(rng, tier):
@@ -122,7 +127,7 @@ def cases(rng, tier):
         for ax in rng.sample(range(nd), rng.randint(1, nd)):
             dims[ax] = NONIDENT[(k + ax) % len(NONIDENT)]
         if len(set(dims)) == nd:
-            c.update(dims=dims, stream="nonident", sub=rng.getrandbits(32))
+            c.update(dims=dims, stream="nonident", sub=rng.getrandbits(32), bc="")
             yield c
     # corner points given as small Python ints with cells that are not whole numbers (two or four cells per unit, or
     # thirds): centres, vertices and the coordinate field are non-integers although the corners are integer-typed
@@ -247,7 +252,8 @@ def run_impl(case):
     if st2 != "ok" or not (np.array_equal(r.pmin, r2.pmin) and np.array_equal(r.pmax, r2.pmax)):
         obs["oracle"].append("corner order changes the region")
     obs["region_state"] = dict(pmin=Qs(r.pmin), pmax=Qs(r.pmax), dims=list(r.dims), units=list(r.units))
-    st, m = _err(lambda: df.Mesh(region=r, n=case["n"]))
+    st, m = _err(lambda: df.Mesh(region=r, n=case["n"], bc=case.get("bc", "")))
+    obs["tags"].append("bc:" + ("periodic" if case.get("bc") and case["bc"] not in ("neumann", "dirichlet") else (case.get("bc") or "none")))
     obs["mesh"] = st
     if st == "err":
         obs["tags"].append("mesh-rejected")
